@@ -59,7 +59,7 @@ def cdiv(ex, a, b, node=None):
         raise Unsupported("ceil of a real quotient")
     ex.oblige(f"{ex.qualname}/ceil_divisor_positive@{ex.cur_line - ex.fnode.lineno}", b > 0, "safety")
     ex.assume(b > 0)
-    return -((-a) / b)
+    return ex.prop.theory.cdiv(a, b, ex.prop.abstract_nl)
 
 
 def to_seq(ex, v, node=None):
@@ -94,27 +94,39 @@ def set_enumeration(ex, s, sorted_=False):
     i, j = z3.Ints(f"{fresh_name('i')} {fresh_name('j')}")
     x = z3.Const(fresh_name("x"), sort)
     ex.assume(n >= 0)
-    ex.assume(z3.ForAll([i], z3.Implies(z3.And(i >= 0, i < n), z3.And(z3.Select(s.arr, z3.Select(arr, i)), idx(z3.Select(arr, i)) == i)), patterns=[z3.Select(arr, i)]))
-    ex.assume(z3.ForAll([x], z3.Implies(z3.Select(s.arr, x), z3.And(idx(x) >= 0, idx(x) < n, z3.Select(arr, idx(x)) == x)), patterns=[z3.Select(s.arr, x)]))
+    ex.assume(V.qforall([i], z3.Implies(z3.And(i >= 0, i < n), z3.And(z3.Select(s.arr, z3.Select(arr, i)), idx(z3.Select(arr, i)) == i)), patterns=[z3.Select(arr, i)]))
+    ex.assume(V.qforall([x], z3.Implies(z3.Select(s.arr, x), z3.And(idx(x) >= 0, idx(x) < n, z3.Select(arr, idx(x)) == x)), patterns=[z3.Select(s.arr, x)]))
     if sorted_:
         if sort not in (z3.IntSort(), z3.RealSort()):
             raise Unsupported("sorted() over a non-numeric set")
-        ex.assume(z3.ForAll([i, j], z3.Implies(z3.And(i >= 0, i < j, j < n), z3.Select(arr, i) < z3.Select(arr, j)), patterns=[z3.MultiPattern(z3.Select(arr, i), z3.Select(arr, j))]))
+        ex.assume(V.qforall([i, j], z3.Implies(z3.And(i >= 0, i < j, j < n), z3.Select(arr, i) < z3.Select(arr, j)), patterns=[z3.MultiPattern(z3.Select(arr, i), z3.Select(arr, j))]))
     r = SeqV(s.shape, arr, n)
     r.enum_of = s
+    ex.assume(V.qforall([x], ex.seq_mem(r, x) == z3.Select(s.arr, x), patterns=[ex.seq_mem(r, x)]))
     return r
 
 
-def seq_to_set(ex, q):
-    sort = key_sort(q.shape)
+def define_set(ex, shape, body_fn, name="set"):
+    """A set given by its characteristic formula: fresh array constant S with the
+    defining axiom  forall x. S[x] <-> body(x)  (pattern S[x]); avoids z3 lambdas, which
+    cannot be used in patterns."""
+    sort = key_sort(shape)
+    S = z3.Const(fresh_name(name), z3.ArraySort(sort, z3.BoolSort()))
     x = z3.Const(fresh_name("x"), sort)
+    ex.assume(V.qforall([x], z3.Select(S, x) == body_fn(x), patterns=[z3.Select(S, x)]))
+    return SetV(shape, S)
+
+
+def seq_to_set(ex, q):
     i = z3.Const(fresh_name("i"), z3.IntSort())
     (arr,) = arrs_of(q)
     if isinstance(q.n, z3.IntNumRef) and q.n.as_long() <= 8:
-        body = z3.Or(*[z3.Select(arr, k) == x for k in range(q.n.as_long())]) if q.n.as_long() else z3.BoolVal(False)
-    else:
-        body = z3.Exists([i], z3.And(i >= 0, i < q.n, z3.Select(arr, i) == x))
-    return SetV(q.shape, z3.Lambda([x], body))
+        k_ = q.n.as_long()
+        return define_set(ex, q.shape, lambda x: z3.Or(*[z3.Select(arr, k) == x for k in range(k_)]) if k_ else z3.BoolVal(False))
+    r = define_set(ex, q.shape, lambda x: ex.seq_mem(q, x))
+    x = z3.Const(fresh_name("x"), key_sort(q.shape))
+    ex.assume(V.qforall([x], ex.seq_mem(q, x) == z3.Select(r.arr, x), patterns=[ex.seq_mem(q, x)]))
+    return r
 
 
 def comprehension(ex, node, kind, env=None):
@@ -136,34 +148,65 @@ def comprehension(ex, node, kind, env=None):
         ex.env = inner
         nhyps = len(ex.hyps)
         ndec = ex.dpos
-        ex.assume(z3.And(k >= 0, k < src.n))
-        ex.assign(g.target, src.get(k))
+        rng = getattr(src, "range", None) if isinstance(g.target, ast.Name) else None
+        if rng is not None:
+            # the loop variable itself is the bound variable: lo <= v < hi
+            v = z3.Const(fresh_name("cv"), z3.IntSort())
+            ex.assume(z3.And(v >= rng[0], v < rng[1]))
+            ex.assign(g.target, v)
+        else:
+            ex.assume(z3.And(k >= 0, k < src.n))
+            ex.assign(g.target, src.get(k))
         conds = [ex.truth(ex.eval(c)) for c in g.ifs]
         elt = ex.eval(node.elt)
         if ex.dpos != ndec:
             raise Unsupported("comprehension body branches on symbolic data")
+        # facts assumed while evaluating the body (callee postconditions ...) hold for every
+        # value of the bound variable: keep them universally quantified
+        body_facts = ex.hyps[nhyps + 1:]
+        range_fact = ex.hyps[nhyps]
         del ex.hyps[nhyps:]
+        if body_facts:
+            bv = v if rng is not None else k
+            ex.assume(V.qforall([bv], z3.Implies(range_fact, z3.And(*body_facts))))
     finally:
         ex.env = saved
+    shape = ex.shape_of(elt)
+    if rng is not None:
+        lo, hi = rng
+        terms = flatten(shape, elt)
+        if not conds:
+            r = mk_seq(shape, [z3.Lambda([k], z3.substitute(t, (v, lo + k))) for t in terms], src.n)
+            r.range_body = (v, lo, hi, terms)
+            if kind == "set":
+                return seq_to_set(ex, r)
+            return r
+        cond = z3.And(*conds)
+        (t,) = terms
+        if not t.eq(v):
+            raise Unsupported("filtered comprehension over a range with a non-identity element")
+        member = define_set(ex, shape, lambda x: z3.And(x >= lo, x < hi, z3.substitute(cond, (v, x))))
+        if kind == "set":
+            return member
+        r = set_enumeration(ex, member, sorted_=True)
+        r.strictly_increasing = True
+        r.filtered_range = (v, lo, hi, cond)
+        return r
     if not conds:
-        shape = ex.shape_of(elt)
         terms = flatten(shape, elt)
         r = mk_seq(shape, [z3.Lambda([k], t) for t in terms], src.n)
         if kind == "set":
             return seq_to_set(ex, r)
         return r
     cond = z3.And(*conds)
-    shape = ex.shape_of(elt)
     (t,) = flatten(shape, elt)
     if kind == "set":
-        x = z3.Const(fresh_name("x"), t.sort())
-        return SetV(shape, z3.Lambda([x], z3.Exists([k], z3.And(k >= 0, k < src.n, cond, t == x))))
+        return define_set(ex, shape, lambda x: z3.Exists([k], z3.And(k >= 0, k < src.n, cond, t == x)))
     # filtered list: only for the identity element over a strictly increasing source
     (sa,) = arrs_of(src)
     if not (t.eq(z3.Select(sa, k)) or z3.simplify(t == z3.Select(sa, k)).eq(z3.BoolVal(True))) or not getattr(src, "strictly_increasing", False):
         raise Unsupported("filtered list comprehension other than [x for x in <increasing> if c]")
-    x = z3.Const(fresh_name("x"), t.sort())
-    member = SetV(shape, z3.Lambda([x], z3.Exists([k], z3.And(k >= 0, k < src.n, cond, t == x))))
+    member = define_set(ex, shape, lambda x: z3.Exists([k], z3.And(k >= 0, k < src.n, cond, t == x)))
     r = set_enumeration(ex, member, sorted_=True)
     r.strictly_increasing = True
     return r
@@ -222,7 +265,8 @@ def call_builtin(ex, name, args, kw, node):
             n = to_num(x.arg)
             b = z3.Const(fresh_name("csqrt"), z3.IntSort())
             # A-FLOATDIV: ceil(n ** 0.5) is the least B >= 0 with B*B >= n
-            ex.assume(z3.And(b >= 0, b * b >= n, z3.Or(b == 0, (b - 1) * (b - 1) < n)))
+            mul = lambda p, q: ex.prop.theory.mul(p, q, ex.prop.abstract_nl)
+            ex.assume(z3.And(b >= 0, mul(b, b) >= n, z3.Or(b == 0, mul(b - 1, b - 1) < n)))
             return b
         x = to_num(x)
         if x.is_int():
@@ -236,7 +280,7 @@ def call_builtin(ex, name, args, kw, node):
                 ex.assume(b > 0) if False else None
                 ex.oblige(f"{ex.qualname}/floor_divisor_positive@{ex.cur_line - ex.fnode.lineno}", b > 0, "safety")
                 ex.assume(b > 0)
-                return a / b
+                return ex.prop.theory.div(a, b, ex.prop.abstract_nl)
         x = to_num(x)
         return x if x.is_int() else z3.ToInt(x)
     if name == "round":
@@ -250,8 +294,9 @@ def call_builtin(ex, name, args, kw, node):
                 ex.assume(b > 0)
                 r = z3.Const(fresh_name("round"), z3.IntSort())
                 # exact rounding of the exact quotient: |a/b - r| <= 1/2, and r == a/b when b | a
-                ex.assume(z3.And(2 * (a - r * b) <= b, 2 * (r * b - a) <= b))
-                ex.assume(z3.Implies(a % b == 0, r == a / b))
+                th, ab = ex.prop.theory, ex.prop.abstract_nl
+                ex.assume(z3.And(2 * (a - th.mul(r, b, ab)) <= b, 2 * (th.mul(r, b, ab) - a) <= b))
+                ex.assume(z3.Implies(th.mod(a, b, ab) == 0, r == th.div(a, b, ab)))
                 return r
         x = to_num(x)
         if x.is_int():
@@ -353,7 +398,7 @@ def call_builtin(ex, name, args, kw, node):
         el = z3.Select(a, i)
         t = el if is_bool(el) else (el != 0)
         rng = z3.And(i >= 0, i < q.n)
-        return z3.Exists([i], z3.And(rng, t)) if name == "any" else z3.ForAll([i], z3.Implies(rng, t))
+        return z3.Exists([i], z3.And(rng, t)) if name == "any" else V.qforall([i], z3.Implies(rng, t))
     if name == "dict":
         if not args and not kw:
             return EmptyDict()
@@ -382,9 +427,9 @@ def sorted_seq(ex, q):
     perm = z3.Function(fresh_name("perm"), z3.IntSort(), z3.IntSort())
     inv = z3.Function(fresh_name("perm.inv"), z3.IntSort(), z3.IntSort())
     rng = lambda t: z3.And(t >= 0, t < q.n)
-    ex.assume(z3.ForAll([i], z3.Implies(rng(i), z3.And(rng(perm(i)), inv(perm(i)) == i, z3.Select(arr, i) == z3.Select(a, perm(i)))), patterns=[z3.Select(arr, i)]))
-    ex.assume(z3.ForAll([i], z3.Implies(rng(i), z3.And(rng(inv(i)), perm(inv(i)) == i)), patterns=[z3.Select(a, i)]))
-    ex.assume(z3.ForAll([i, j], z3.Implies(z3.And(i >= 0, i < j, j < q.n), z3.Select(arr, i) <= z3.Select(arr, j)), patterns=[z3.MultiPattern(z3.Select(arr, i), z3.Select(arr, j))]))
+    ex.assume(V.qforall([i], z3.Implies(rng(i), z3.And(rng(perm(i)), inv(perm(i)) == i, z3.Select(arr, i) == z3.Select(a, perm(i)))), patterns=[z3.Select(arr, i)]))
+    ex.assume(V.qforall([i], z3.Implies(rng(i), z3.And(rng(inv(i)), perm(inv(i)) == i)), patterns=[z3.Select(a, i)]))
+    ex.assume(V.qforall([i, j], z3.Implies(z3.And(i >= 0, i < j, j < q.n), z3.Select(arr, i) <= z3.Select(arr, j)), patterns=[z3.MultiPattern(z3.Select(arr, i), z3.Select(arr, j))]))
     return SeqV(q.shape, arr, q.n)
 
 
@@ -402,7 +447,7 @@ def call_builtin_method(ex, recv, name, args, kw, node):
     # --- methods that mutate the receiver: evaluate to the new container and rebind
     def rebind(newval):
         tgt = node.func.value
-        ex.assign(tgt, newval)
+        ex.assign(tgt, newval, mutate=True)
         return NONE
 
     if isinstance(recv, (EmptySeq, EmptySet, EmptyDict)):
@@ -419,7 +464,13 @@ def call_builtin_method(ex, recv, name, args, kw, node):
             (x,) = args
             terms = flatten(recv.shape, x)
             arrs = [z3.Store(a, recv.n, t) for a, t in zip(arrs_of(recv), terms)]
-            return rebind(mk_seq(recv.shape, arrs, recv.n + 1))
+            new = mk_seq(recv.shape, arrs, recv.n + 1)
+            if len(arrs) == 1:
+                # membership after append (a consequence of the definition of seq_mem, stated
+                # with a pattern so that it is used):  y in xs+[v]  <->  y in xs or y == v
+                y = z3.Const(fresh_name("ay"), terms[0].sort())
+                ex.assume(V.qforall([y], ex.seq_mem(new, y) == z3.Or(ex.seq_mem(recv, y), y == terms[0]), patterns=[ex.seq_mem(new, y)]))
+            return rebind(new)
         if name == "copy":
             return recv
         if name == "extend":
